@@ -3,7 +3,7 @@ CONSTANTS
   Slots <- Slots2
   Kinds <- KBoth
   Methods <- MAll
-  Progs <- PAll
+  Progs <- PBad
   Scopes <- ScAll
   GenSels <- GBoth
   ArcheSet = "full"
